@@ -711,9 +711,9 @@ def patched(modules, extra=None):
     saved = []
     try:
         for m in modules:
-            for name, repl in (("np", symnp), ("logsumexp", logsumexp), ("logger", null_logger)):
-                if name in m.__dict__:
-                    saved.append((m, name, m.__dict__[name]))
+            for name, repl in (("np", symnp), ("logsumexp", logsumexp), ("logger", null_logger), ("float", symfloat)):
+                if name in m.__dict__ or name == "float":
+                    saved.append((m, name, m.__dict__.get(name, _MISSING)))
                     setattr(m, name, repl)
             for name, repl in (extra or {}).get(m.__name__, {}).items():
                 saved.append((m, name, m.__dict__.get(name, _MISSING)))
@@ -728,6 +728,26 @@ def patched(modules, extra=None):
 
 
 _MISSING = object()
+
+
+class _SymFloatMeta(type):
+    def __instancecheck__(cls, inst):
+        return isinstance(inst, float)
+
+    def __subclasscheck__(cls, sub):
+        return issubclass(sub, float)
+
+
+class symfloat(float, metaclass=_SymFloatMeta):
+    """`float` as seen by patched modules: symbolic values pass through unchanged;
+    isinstance(x, float) keeps its meaning."""
+
+    def __new__(cls, x=0.0):
+        if isinstance(x, Sym):
+            return x
+        if isinstance(x, _np.ndarray) and x.dtype == object and x.ndim == 0 and isinstance(x.item(), Sym):
+            return x.item()
+        return float(x)
 
 
 @contextlib.contextmanager
